@@ -169,3 +169,12 @@ Definition bytes_of (c : content) : bytes :=
   match c with CHeader h code => (encode_hdr h ++ code)%list | CCode code => code end.
 Definition code_of (c : content) : bytes :=
   match c with CHeader _ code => code | CCode code => code end.
+
+(** ------------------------------------- a process performing several loads *)
+(** The loader has no state: what a process obtains from a sequence of loads
+    is, by definition of the model, the list of the individual results. *)
+Fixpoint load_seq (l : list (view * string)) : list outcome :=
+  match l with
+  | [] => []
+  | (v, name) :: r => load v name :: load_seq r
+  end.
